@@ -92,6 +92,9 @@ pub struct St {
     closed_at: Vec<u32>,
     /// per-tick count of substreams held by X / Y on L
     held_history: Vec<(u32, usize)>,
+    /// clock values at which virtual time stopped (a `Wait(n)` moves the clock by n at once: what happened in between is
+    /// only observed at the next stop)
+    stops: Vec<u32>,
     y_exited_at_step: Option<usize>,
     timeline: Vec<(u32, String)>,
     /// trace class before the end-of-run probes added their own events
@@ -177,6 +180,7 @@ impl Scenario for ConnScenario {
             established_at: Vec::new(),
             closed_at: Vec::new(),
             held_history: Vec::new(),
+            stops: Vec::new(),
             y_exited_at_step: None,
             timeline: Vec::new(),
             frozen_class: None,
@@ -285,6 +289,7 @@ impl Scenario for ConnScenario {
 
     fn on_tick(&self, st: &mut St, by: Duration) {
         st.now += by.as_secs() as u32;
+        st.stops.push(st.now);
     }
 
     fn time(&self) -> (u32, Duration) {
@@ -604,6 +609,17 @@ impl Scenario for ConnScenario {
                             // never while a keep-alive substream is held
                             let held_then = st.held_history.iter().rev().find(|(at, _)| *at <= c).map(|(_, h)| *h).unwrap_or(0);
                             let held_before = st.held_history.iter().rev().find(|(at, _)| *at < c).map(|(_, h)| *h).unwrap_or(0);
+                            // ... and not (much) later than the timeout after the last activity: nothing was held since
+                            let held_at = |time: u32| st.held_history.iter().rev().find(|(at, _)| *at <= time).map(|(_, h)| *h).unwrap_or(0);
+                            let idle_since = held_at(last_activity) == 0 && st.held_history.iter().all(|(at, h)| *at <= last_activity || *h == 0);
+                            // the first moment at or after the deadline at which the clock stopped and events could be seen
+                            let seen_by = st.stops.iter().copied().find(|s| *s >= last_activity + t).unwrap_or(u32::MAX - 1);
+                            if !self.with_ping && !self.real_tcp && idle_since && c > seen_by + 1 {
+                                v.push(Viol::new(
+                                    "c09/closed-late",
+                                    format!("connection established at t={est}, last keep-alive activity at t={last_activity}, nothing held since, timeout {t}: closed only at t={c}; timeline {:?}", st.timeline),
+                                ));
+                            }
                             if held_then > 0 && held_before > 0 {
                                 v.push(Viol::new(
                                     "c09/closed-while-substream-held",
@@ -770,6 +786,9 @@ pub fn scenarios(filter: &str, thorough: bool) -> Vec<ConnScenario> {
                 v.push(sc("c09", t, ping, tail, vec![Connect, OpenX, Wait(9)]));
                 v.push(sc("c09", t, ping, tail, vec![Connect, Wait(2), OpenY, DropSubY(0), Wait(3), OpenX, DropSubX(0)]));
                 v.push(sc("c09", t, ping, tail, vec![Connect, Wait(5)]));
+                // activity inside a running keep-alive window, idle afterwards: the deadline moves to activity + T
+                v.push(sc("c09", t, ping, tail, vec![Connect, Wait(1), OpenX, DropSubX(0)]));
+                v.push(sc("c09", t, ping, tail, vec![Connect, Wait(1), OpenX, DropSubX(0), Wait(2), OpenY, DropSubY(0)]));
                 // a half-closed substream is still a substream
                 v.push(sc("c09", t, ping, tail, vec![Connect, OpenX, Wait(1), HalfCloseX(0), Wait(8)]));
                 v.push(sc("c09", t, ping, tail, vec![Connect, Wait(2), RemoteOpenX]));
